@@ -21,8 +21,8 @@ def consts(sc):
         ", ".join(tla_str(t) for t in sc["threads"]), ", ".join(tla_str(k) for k in sc["keys"]), tla_str(sc["flavor"]), sc["maxid"], ", ".join(map(str, amounts)))
 
 
-def harness_scen(sc, kind=None):
-    h = {"obj": {"kind": kind or sc["kind"], "keys": sc["keys"], "bounds": [100]}, "threads": sc["threads"], "scripts": sc["scripts"], "budget": sc.get("budget", 3000)}
+def harness_scen(sc, kind=None, share=None):
+    h = {"obj": dict({"kind": kind or sc["kind"], "keys": sc["keys"], "bounds": [100]}, **({"share": share} if share else {})), "threads": sc["threads"], "scripts": sc["scripts"], "budget": sc.get("budget", 3000)}
     if "pre" in sc:
         h["pre"] = sc["pre"]          # initial population, made by the controller before the threads start
     return h
@@ -103,15 +103,16 @@ def run_scenario(ctx, exe, sc, label, stats, samples, model=True, nrandom=0, kin
     # preemption-bounded systematic search on the real code (independent of the step-level model)
     pbb = pb or ((2, 300) if ctx.quick else (3, 10000))
     for kind in kinds:
-        res, info = pb_explore(ctx, exe, harness_scen(sc, kind), label + kind, pbb[0], pbb[1], nproc=nproc)
+        res, info = pb_explore(ctx, exe, harness_scen(sc, kind, "ref"), label + kind, pbb[0], pbb[1], nproc=nproc)
         for x in res:
             x["kind"] = kind
+            x["share"] = "ref"
         results += res
         stats["pb_executions"] = stats.get("pb_executions", 0) + info["executions"]
         stats["pb_searches"] = stats.get("pb_searches", 0) + 1
     seen = {}
     for x in results:
-        rp = {"scenario": harness_scen(sc, x["kind"]), "job": {"id": x["id"], "mode": "choices", "choices": x["choices"]}}
+        rp = {"scenario": harness_scen(sc, x["kind"], x.get("share")), "job": {"id": x["id"], "mode": "choices", "choices": x["choices"]}}
         if x.get("nonterm"):
             stats["nonterm"] += 1
             ctx.violation("nonterminating", "a call did not return within the step budget (%s) under schedule %s" % ("deadlock" if x.get("deadlock") else "livelock", x["id"]), rp)
@@ -150,14 +151,14 @@ def run_scenario(ctx, exe, sc, label, stats, samples, model=True, nrandom=0, kin
     for h, x in seen.values():
         if not ints_only(h):
             ctx.violation("value-not-integral", "a value no combination of the (integer) updates explains: job %s" % x["id"],
-                          {"scenario": harness_scen(sc, x["kind"]), "job": {"id": x["id"], "mode": "choices", "choices": x["choices"]}, "history": h})
+                          {"scenario": harness_scen(sc, x["kind"], x.get("share")), "job": {"id": x["id"], "mode": "choices", "choices": x["choices"]}, "history": h})
         else:
             good.append((h, x))
     rej = oracle(ctx, "LinVec", "Linearizable", [h for h, _ in good], label)
     for i in sorted(rej):
         h, x = good[i]
         ctx.violation("history-rejected", "LinVec finds no linearization of the recorded history of job %s on a %s (scenario %s)" % (x["id"], x["kind"], label),
-                      {"scenario": harness_scen(sc, x["kind"]), "job": {"id": x["id"], "mode": "choices", "choices": x["choices"]}, "history": h})
+                      {"scenario": harness_scen(sc, x["kind"], x.get("share")), "job": {"id": x["id"], "mode": "choices", "choices": x["choices"]}, "history": h})
     stats["histories"] += len(good)
     stats["rejected"] += len(rej)
 
